@@ -466,6 +466,9 @@ def run_property(rep, prop, clause_prefixes=None, quick_builds=90):
     jobs = [(bps[b['name']], b['decl'], rep.seed, HORIZON, None) for b in chosen]
     results = observe_many(jobs)
     judge(rep, prop, clause_prefixes, chosen, results)
+    # code -> spec on models the machinery did not design: the repository's own example scripts
+    from harness import wildmodels
+    wildmodels.judge(rep, prop, clause_prefixes)
 
 
 def judge(rep, prop, clause_prefixes, chosen, results):
@@ -500,6 +503,16 @@ def replay_case(prop, clause_prefixes, path):
         data = json.load(f)
     case = data['case']
     rep = core.Report(prop, 'quick', case.get('seed', 0))
+    if 'wild' in case:
+        from harness import wildmodels
+        wildmodels.judge(rep, prop, clause_prefixes, only=[case['wild']])
+        if rep.violations:
+            print('VIOLATION property=%s replay=%s' % (prop, path))
+            for v in rep.violations:
+                print('  clause=%s' % v.clause)
+            return 1
+        print('replay: property clauses hold on this case now')
+        return 0
     bps, behs = generate(rep, 'MC_ModelBuild_quick.cfg')
     if case['name'] not in bps:
         bps, behs = generate(rep, 'MC_ModelBuild_thorough.cfg')
@@ -528,4 +541,5 @@ def describe(rep, prop):
         'exact rational oracle (harness/exact.py) and independent equation-text reader (harness/project.py) are trusted',
         'TLC evaluates identities in the prime field Z_10007 on two valuations (false identity accepted with probability ~1e-8)',
         'topologies are those of spec/ModelBlueprints.tla; parameters/paths are seeded random decimals',
+        'harvested models: every Model that the example scripts of the tree under test build (own sector classes, own parameters) is judged on the blueprint-free clauses only (event Harvested); a script that needs matplotlib / the GUI is skipped',
     ]
